@@ -168,10 +168,17 @@ fn expression_ends_with_prefix(expression: &Expression) -> bool {
         Expression::If(if_expression) => {
             expression_ends_with_prefix(if_expression.get_else_result())
         }
+        Expression::Number(number) => match number {
+            // infinite and NaN values are written between parentheses: `(1/0)` or `(0/0)`
+            NumberExpression::Decimal(decimal) => {
+                let float = decimal.get_raw_float();
+                float.is_nan() || float.is_infinite()
+            }
+            NumberExpression::Hex(_) | NumberExpression::Binary(_) => false,
+        },
         Expression::False(_)
         | Expression::Function(_)
         | Expression::Nil(_)
-        | Expression::Number(_)
         | Expression::String(_)
         | Expression::InterpolatedString(_)
         | Expression::Table(_)
